@@ -62,3 +62,8 @@ package protocol
 //@   at-call SendBlocks assert[at-most-128-momentums] len(arg1) <= 128
 //@   loop 2
 //@     invariant len(blocks) < 128
+
+// ---- C14: blocks that arrive by gossip compete under the pool's winner rule (never the forced path of momentum insertion) ------
+//@ func chainBridge.AddAccountBlocks(c, blocks)
+//@   requires forall i int :: 0 <= i && i < len(blocks) ==> blocks[i] != nil
+//@   at-call AddAccountBlockTransaction assert[gossiped-blocks-go-through-the-winner-rule-verified] arg2 != nil && arg2.verified && arg2.Block == block
